@@ -25,9 +25,9 @@ func (C16) Plan(tier string) core.Plan {
 
 func (C16) Info() core.Info {
 	return core.Info{
-		Rule:        "exact-match worlds over distinct parameter types (so the designated option of every parameter is unique) whose option list is transformed by the PRNG: random casing of names on both sides, duplicates of a key at random distance, a split into NewFunc defaults and Call options with overlapping keys, interleaved nil values, options with the same name/type under another subtype (distinct keys), and sometimes a second Func of the same signature whose defaults are a sub-slice (prefix) of the first one's defaults slice and which is called first; history = the call, the same call with the distinct-key groups permuted (reusing the same option values), and the call with a nil option inserted. Each under 6-16 seeded iteration-order schedules (the option list lands in four Go maps that are then ranged). Oracle: each parameter's token is the one of the option the rules designate (last occurrence in defaults-then-call order); the permuted call delivers the same tokens; the nil-option call returns an error and runs nothing. Non-trivial: some transformation applied; distinct = distinct (world shape, event-log hash)",
+		Rule:        "exact-match worlds over distinct parameter types (so the designated option of every parameter is unique) whose option list is transformed by the PRNG: random casing of names on both sides, duplicates of a key at random distance, a split into NewFunc defaults and Call options with overlapping keys, interleaved nil values, options with the same name/type under another subtype (distinct keys), and sometimes a second Func of the same signature whose defaults are a sub-slice (prefix) of the first one's defaults slice and which is called first; several type-only values and nils bundled into one Typed(...) option; history = the call, the same call with the distinct-key groups permuted (reusing the same option values), the call again without the options that merely overrode a default (the default must apply again), and the call with a nil option inserted. Each under 6-16 seeded iteration-order schedules (the option list lands in four Go maps that are then ranged). Oracle: each parameter's token is the one of the option the rules designate (last occurrence in defaults-then-call order); the permuted call delivers the same tokens; the nil-option call returns an error and runs nothing. Non-trivial: some transformation applied; distinct = distinct (world shape, event-log hash)",
 		Assumptions: []string{"parameter types are pairwise distinct within a target, which makes the designated option of a type-only parameter unique"},
-		Probes:      []string{"c16_calls", "c16_duplicate_keys", "c16_default_overridden", "c16_default_used", "c16_mixed_case", "c16_nil_value_present", "c16_nil_option_calls", "c16_permuted_calls", "c16_other_subtype_key", "c16_prefix_sharing_func_called", "s1_nonidentity_perms"},
+		Probes:      []string{"c16_calls", "c16_duplicate_keys", "c16_default_overridden", "c16_default_used", "c16_mixed_case", "c16_nil_value_present", "c16_nil_option_calls", "c16_permuted_calls", "c16_other_subtype_key", "c16_prefix_sharing_func_called", "c16_typed_multi_option", "c16_default_applies_after_override", "s1_nonidentity_perms"},
 		Real:        realComponents,
 		Simulated:   simComponents,
 	}
@@ -111,6 +111,25 @@ func (C16) Gen(r *simrt.RNG, tier string) core.Case {
 			}
 		}
 	}
+	// several type-only values (and nils) in one Typed(...) option
+	if r.Chance(1, 3) {
+		var comps, rest []int
+		for _, ai := range call {
+			if a := w.Args[ai]; a.Kind == world.ArgTyped && a.Label.Sub == "" && len(comps) < 3 && r.Chance(2, 3) {
+				comps = append(comps, ai)
+			} else {
+				rest = append(rest, ai)
+			}
+		}
+		if len(comps) >= 1 {
+			m := world.ArgSpec{Kind: world.ArgTypedMulti, Multi: comps, NilLast: r.Chance(1, 3)}
+			for range comps {
+				m.NilBefore = append(m.NilBefore, r.Chance(1, 2))
+			}
+			w.Args = append(w.Args, m)
+			call = append(rest, len(w.Args)-1)
+		}
+	}
 	// nil values interleaved
 	if r.Chance(1, 3) {
 		a := world.ArgSpec{Kind: world.ArgNilValue}
@@ -129,7 +148,7 @@ func (C16) Gen(r *simrt.RNG, tier string) core.Case {
 	shuffle(defaults)
 	shuffle(call)
 	w.Parties[0].Defaults = defaults
-	w.Ops = append(w.Ops, world.Op{Kind: world.OpCall, Target: 0, Args: call})
+	w.Ops = append(w.Ops, world.Op{Kind: world.OpCall, Target: 0, Args: call, Twin: 1})
 	// permuted twin: permute while keeping the relative order inside each key group
 	keyOf := func(ai int) string {
 		a := w.Args[ai]
@@ -141,10 +160,26 @@ func (C16) Gen(r *simrt.RNG, tier string) core.Case {
 		}
 		return fmt.Sprintf("t:%d/%s", a.Label.Type, a.Label.Sub)
 	}
+	// an option bundling several values forms one group with every option that
+	// sets one of its components' keys (their relative order matters)
+	multiKeys := map[string]bool{}
+	for _, ai := range call {
+		if w.Args[ai].Kind == world.ArgTypedMulti {
+			for _, ci := range w.Args[ai].Multi {
+				multiKeys[keyOf(ci)] = true
+			}
+		}
+	}
+	groupOf := func(ai int) string {
+		if w.Args[ai].Kind == world.ArgTypedMulti || multiKeys[keyOf(ai)] {
+			return "multi"
+		}
+		return keyOf(ai)
+	}
 	groups := map[string][]int{}
 	var order []string
 	for _, ai := range call {
-		k := keyOf(ai)
+		k := groupOf(ai)
 		if _, ok := groups[k]; !ok {
 			order = append(order, k)
 		}
@@ -162,7 +197,26 @@ func (C16) Gen(r *simrt.RNG, tier string) core.Case {
 			remaining--
 		}
 	}
-	w.Ops = append(w.Ops, world.Op{Kind: world.OpCall, Target: 0, Args: twin})
+	w.Ops = append(w.Ops, world.Op{Kind: world.OpCall, Target: 0, Args: twin, Twin: 2})
+	// the call again without the options that merely override a default: the default applies
+	{
+		inDefaults := map[string]bool{}
+		for _, ai := range defaults {
+			inDefaults[keyOf(ai)] = true
+		}
+		var trimmed []int
+		dropped := false
+		for _, ai := range call {
+			if w.Args[ai].Kind != world.ArgTypedMulti && inDefaults[keyOf(ai)] {
+				dropped = true
+				continue
+			}
+			trimmed = append(trimmed, ai)
+		}
+		if dropped {
+			w.Ops = append(w.Ops, world.Op{Kind: world.OpCall, Target: 0, Args: trimmed})
+		}
+	}
 	// a second Func built from a prefix of the same defaults slice, called first
 	if len(defaults) >= 2 && r.Chance(1, 3) {
 		k := 1 + r.Intn(len(defaults)-1)
@@ -209,7 +263,7 @@ func c16Valid(w world.World) bool {
 	}
 	for _, a := range w.Args {
 		switch a.Kind {
-		case world.ArgNamed, world.ArgTyped, world.ArgNilValue, world.ArgNilOpt:
+		case world.ArgNamed, world.ArgTyped, world.ArgNilValue, world.ArgNilOpt, world.ArgTypedMulti:
 		default:
 			return false
 		}
@@ -291,8 +345,28 @@ func (C16) Run(c core.Case, ctx *core.Ctx) []core.Violation {
 				continue
 			}
 			ctx.St.Inc("c16_calls")
+			if oi >= 2 && tgt == 0 && len(w.Ops[oi].Args) < len(w.Ops[0].Args) {
+				ctx.St.Inc("c16_default_applies_after_override")
+			}
 			// designated option per parameter: last occurrence in defaults-then-call order
-			full := append(append([]int{}, t.Defaults...), w.Ops[oi].Args...)
+			var full []int
+			for _, ai := range append(append([]int{}, t.Defaults...), w.Ops[oi].Args...) {
+				if w.Args[ai].Kind == world.ArgTypedMulti {
+					full = append(full, w.Args[ai].Multi...)
+					ctx.St.Inc("c16_typed_multi_option")
+					transformed = true
+					continue
+				}
+				full = append(full, ai)
+			}
+			ndef := 0
+			for _, ai := range t.Defaults {
+				if w.Args[ai].Kind == world.ArgTypedMulti {
+					ndef += len(w.Args[ai].Multi)
+				} else {
+					ndef++
+				}
+			}
 			want := make([]int, len(t.In))
 			complete := true
 			for pi, s := range t.In {
@@ -303,7 +377,7 @@ func (C16) Run(c core.Case, ctx *core.Ctx) []core.Violation {
 					if (a.Kind == world.ArgNamed || a.Kind == world.ArgTyped) && a.Label == s.Label {
 						want[pi] = ai
 						cnt++
-						fromDefault = pos < len(t.Defaults)
+						fromDefault = pos < ndef
 						if fromDefault {
 							defaultSeen = true
 						}
@@ -363,12 +437,9 @@ func (C16) Run(c core.Case, ctx *core.Ctx) []core.Violation {
 					add("wrong-option-instance-injected", fmt.Sprintf("op %d schedule %d: parameter %s must receive the value of option %d (last occurrence of its key), received that of %s", oi, k, s.Label, want[pi], gl))
 				}
 			}
-			if tgt != 0 {
-				continue
-			}
-			if firstTokens == nil {
+			if w.Ops[oi].Twin == 1 {
 				firstTokens = append([]uint64{}, texec.In...)
-			} else if !twinDone {
+			} else if w.Ops[oi].Twin == 2 && firstTokens != nil && !twinDone {
 				twinDone = true
 				ctx.St.Inc("c16_permuted_calls")
 				for pi := range texec.In {
